@@ -114,7 +114,7 @@ class LoopTx(ast.NodeTransformer):
         self.generic_visit(node)
         return node
 
-    def _cut(self, k, test, body, pre=()):
+    def _cut(self, k, test, body, pre=(), orelse=()):
         key = f"{self.fname}#{k}"
         names = _assigned_names(body)
         names = [n for n in names if not n.startswith("__pv_once")]
@@ -133,7 +133,9 @@ class LoopTx(ast.NodeTransformer):
         guard_body = ast.parse(f"__pv_v = __pv.loop_variant({key!r}, dict(locals()))").body + [once] + \
             ast.parse(f"if not __pv_brk:\n    __pv.loop_step({key!r}, dict(locals()), __pv_v)").body
         out.append(ast.If(test=test, body=guard_body, orelse=[]))
-        out += ast.parse(f"__pv.loop_exit({key!r}, dict(locals()))").body
+        if orelse:
+            out.append(ast.If(test=ast.parse("not __pv_brk", mode="eval").body, body=list(orelse), orelse=[]))
+        out += ast.parse(f"__pv.loop_exit({key!r}, dict(locals()), __pv_brk)").body
         return out
 
     def visit_While(self, node):
@@ -142,10 +144,8 @@ class LoopTx(ast.NodeTransformer):
         self.generic_visit(node)
         if k not in self.specs:
             return node
-        if node.orelse:
-            raise sym.EngineLimit("while/else with an invariant")
         self.used.add(k)
-        return self._cut(k, node.test, node.body)
+        return self._cut(k, node.test, node.body, orelse=node.orelse)
 
     def visit_For(self, node):
         self.ordinal += 1
@@ -153,8 +153,6 @@ class LoopTx(ast.NodeTransformer):
         self.generic_visit(node)
         if k not in self.specs:
             return node
-        if node.orelse:
-            raise sym.EngineLimit("for/else with an invariant")
         self.used.add(k)
         # for T in IT: body   ==>   __pv_it = __pv.for_iter(IT); __pv_i = 0
         #                           while __pv_i < __pv_it.length: T = __pv_it.item(__pv_i); __pv_i += 1; body
@@ -167,7 +165,7 @@ class LoopTx(ast.NodeTransformer):
                 ast.parse(f"{i} = 0").body[0]]
         test = ast.parse(f"{i} < {it}.length", mode="eval").body
         body = node.body + [ast.parse(f"{i} = {i}").body[0]]  # make the index an assigned (havocked) name
-        return head + self._cut(k, test, body, pre=pre)
+        return head + self._cut(k, test, body, pre=pre, orelse=node.orelse)
 
 
 class LoopSpec:
@@ -175,8 +173,9 @@ class LoopSpec:
     havoc(env, names) -> {name: fresh value} (default: by type of the current value);
     ghost_step(env): called before the step check (lets the contract update ghost state)"""
 
-    def __init__(self, invariant, variant=None, havoc=None, ghost_step=None, variant_lb=0, variant_dec=None):
+    def __init__(self, invariant, variant=None, havoc=None, ghost_step=None, variant_lb=0, variant_dec=None, at_exit=None):
         self.invariant, self.variant, self.havoc, self.ghost_step = invariant, variant, havoc, ghost_step
+        self.at_exit = at_exit  # at_exit(env, broke): may emit obligations about the loop's exit state
         self.variant_lb = variant_lb
         self.variant_dec = variant_dec  # minimal decrease (None: strict decrease of an integer)
 
@@ -242,13 +241,27 @@ class LoopRuntime:
                 run.oblige(f"inv.{key}.variant.decreases", "inv", v1 <= v0 - spec.variant_dec)
         raise sym.PathEnd("loop cut-point")
 
-    def loop_exit(self, key, env):
-        pass
+    def loop_exit(self, key, env, broke=False):
+        spec = self.specs[key]
+        if spec.at_exit is not None:
+            env = dict(env)
+            env["ghost"] = self.ghost
+            spec.at_exit(env, broke)
 
     def for_iter(self, it):
         if hasattr(it, "length") and hasattr(it, "item"):
             return it
+        if isinstance(it, range):
+            return _RangeView(it)
         raise sym.EngineLimit(f"for-loop with invariant over {type(it)}: need a SeqView-like iterable")
+
+
+class _RangeView:
+    def __init__(self, r):
+        self.r, self.length = r, len(r)
+
+    def item(self, i):
+        return self.r.start + i * self.r.step
 
 
 def havoc_like(v, name):
